@@ -131,18 +131,24 @@ DuplicateProducersOK(p, impl) ==
 -----------------------------------------------------------------------------
 (* defaults of a shared parameter: all-or-none and equal values.  A nested  *)
 (* graph exposes the defaults of its inner consumers.                       *)
+(* a nested graph node may expose an inner input under another name:       *)
+(* n.ren = <<inner, exposed>> pairs (as_node().with_inputs(inner=exposed))  *)
+InnerName(n, x) == IF \E k \in 1..Len(n.ren) : n.ren[k][2] = x
+                   THEN n.ren[CHOOSE k \in 1..Len(n.ren) : n.ren[k][2] = x][1] ELSE x
 RECURSIVE HasDefault(_, _)
 HasDefault(n, x) ==
   IF n.kind = "graph"
   THEN LET q == n.sub[1]
-           C == {i \in Idx(q) : x \in Ins(Node(q, i))}
-       IN C # {} /\ \A i \in C : HasDefault(Node(q, i), x)
+           y == InnerName(n, x)
+           C == {i \in Idx(q) : y \in Ins(Node(q, i))}
+       IN C # {} /\ \A i \in C : HasDefault(Node(q, i), y)
   ELSE HasPair(n.defaults, x)
 RECURSIVE DefaultOf(_, _)
 DefaultOf(n, x) ==
   IF n.kind = "graph"
   THEN LET q == n.sub[1]
-       IN DefaultOf(Node(q, First({i \in Idx(q) : x \in Ins(Node(q, i))})), x)
+           y == InnerName(n, x)
+       IN DefaultOf(Node(q, First({i \in Idx(q) : y \in Ins(Node(q, i))})), y)
   ELSE PairGet(n.defaults, x)
 
 DefaultsOK(p) ==
